@@ -302,6 +302,21 @@ def new_state(rng, n_int, n_bytes, templates=True):
     sigs = [rng.choice(SIGS) for _ in range(2)]
     if rng.random() < 0.3:
         byts.append(sha512_256(sigs[0].encode())[:4])
+    # colliding argument TEXTS across pseudo-op kinds / literal forms (same text, different value)
+    if rng.random() < 0.5:
+        byts.append('"%s"' % rng.choice(sigs))              # byte "sig"  vs  method "sig"
+    if rng.random() < 0.25:
+        byts.append('"%s"' % rng.choice(addrs))             # byte "<addr or TMPL_ADDR_0>"  vs  addr <...>
+    if rng.random() < 0.25:
+        t = [x for x in byts if isinstance(x, str) and x.startswith("TMPL_")]
+        byts.append('"%s"' % (t[0] if t else "TMPL_BYTES_0"))   # byte "TMPL_X"  vs  byte TMPL_X
+    if rng.random() < 0.25:
+        byts.append('"%s"' % rng.choice(ints))              # byte "5"  vs  int 5
+    if rng.random() < 0.25:
+        import base64 as _b
+        v = rng.choice([x for x in byts if isinstance(x, bytes)] or [b"ab"])
+        inner = rng.choice([_b.b64encode(v).decode(), _b.b32encode(v).decode().rstrip("="), v.hex(), "0x" + v.hex()])
+        byts.append('"%s"' % inner)                         # byte "YWI="  vs  byte base64(YWI=)
     return {"ints": ints or [1], "bytes": byts or [b"a"], "addrs": addrs, "sigs": sigs}
 
 
@@ -335,4 +350,44 @@ def many_distinct(rng, n, kind, repeats=2, interleave=True):
     if interleave:
         for _ in range(rng.randrange(0, 6)):
             out.insert(rng.randrange(len(out) + 1), rng.choice(FILLER))
+    return out
+
+
+def collision_lists(rng):
+    """Lists whose constant ops carry the SAME argument text (or the same inner text) under different pseudo-ops /
+    literal forms, hence different values: each used once and several times, in both orders, bare and interleaved."""
+    import base64 as _b
+    a1 = make_address(bytes(range(32)))
+    pairs = []
+    for sig in ["add(uint64,uint64)uint64", "f()void", "x", "a"]:
+        pairs.append((op("byte", '"%s"' % sig), op("method", '"%s"' % sig)))
+    pairs += [
+        (op("byte", '"TMPL_BYTES_0"'), op("byte", "TMPL_BYTES_0")),
+        (op("byte", '"TMPL_ADDR_0"'), op("addr", "TMPL_ADDR_0")),
+        (op("byte", "TMPL_X_0"), op("int", "TMPL_X_1")),
+        (op("int", 5), op("byte", '"5"')),
+        (op("int", "pay"), op("byte", '"pay"')),
+        (op("addr", a1), op("byte", '"%s"' % a1)),
+        (op("addr", a1), op("byte", "base32(%s)" % a1[:56])),
+        (op("byte", "base64(YWJj)"), op("byte", '"YWJj"')),
+        (op("byte", "base64(YWJj)"), op("byte", '"base64(YWJj)"')),
+        (op("byte", "base32(MFRGG)"), op("byte", '"MFRGG"')),
+        (op("byte", "base32(MFRGG)"), op("byte", "base64(MFRGG+==)")),
+        (op("byte", "0x6162"), op("byte", '"0x6162"')),
+        (op("byte", "0x6162"), op("byte", '"6162"')),
+        (op("byte", "0x6a6b"), op("byte", "0x6A6B")),
+        (op("method", '"ab"'), op("byte", "0x6162")),
+        (op("byte", '"ab"'), op("byte", "base64(YWI=)")),
+    ]
+    out = []
+    for a, b in pairs:
+        for na, nb in [(1, 1), (1, 3), (2, 2), (3, 1)]:
+            for first, second, n1, n2 in [(a, b, na, nb), (b, a, nb, na)]:
+                seq = [first] * n1 + [second] * n2
+                out.append(list(seq))
+                mixed = list(seq)
+                rng.shuffle(mixed)
+                for _ in range(rng.randrange(0, 3)):
+                    mixed.insert(rng.randrange(len(mixed) + 1), rng.choice(FILLER))
+                out.append(mixed)
     return out
